@@ -3,7 +3,7 @@
    and Css/C08VarSubstProofs.v.  The leaf validators (`validate`), ParseColor
    (`pc`) and the non-modelled shorthand expanders (`oe`) are universally
    quantified: every theorem holds whatever they compute. *)
-From Coq Require Import List NArith ZArith QArith Bool.
+From Coq Require Import List NArith ZArith QArith Qround Bool Lia.
 From Verif Require Import Base.GoSem Css.DeclTok Css.Decl Css.VarSubst Css.C08Spec Css.C08DeclProofs Css.C08VarSubstProofs Css.C08SpellingProofs.
 Import ListNotations.
 Open Scope nat_scope.
@@ -160,6 +160,49 @@ Theorem C08_generic_expander_duplicate :
 Proof. exact generic_expander_duplicate. Qed.
 Print Assumptions C08_generic_expander_duplicate.
 
+(* ---- columns = <'column-width'> || <'column-count'> (css-multicol-1): `_expandColumns` under the
+   generic expander.  `columns_means` (Css/C08Spec.v) is the grammar: one or both components IN ANY
+   ORDER, `auto` belonging to both longhands.  Stated for every pipeline whose validators of the two
+   longhands are the real ones (columnWidth / columnCount); everything else stays a parameter. ---- *)
+
+Theorem C08_columns_spec :
+  forall known validate,
+    (forall t, validate n_column_width [t] = column_width [t]) ->
+    (forall t, validate n_column_count [t] = column_count [t]) ->
+    forall tokens vw vc,
+      columns_means tokens vw vc ->
+      columns_expander known validate tokens = Some [mkNP n_column_width vw []; mkNP n_column_count vc []].
+Proof. exact columns_spec. Qed.
+Print Assumptions C08_columns_spec.
+
+Theorem C08_columns_order_insensitive :
+  forall known validate,
+    (forall t, validate n_column_width [t] = column_width [t]) ->
+    (forall t, validate n_column_count [t] = column_count [t]) ->
+    forall a b, has_var a = false -> has_var b = false ->
+      columns_expander known validate [a; b] = columns_expander known validate [b; a].
+Proof. exact columns_order_insensitive. Qed.
+Print Assumptions C08_columns_order_insensitive.
+
+(* a value outside the grammar is dropped (and nothing else is: C08_bad_declarations_dropped_alone) *)
+Theorem C08_columns_reject :
+  forall known validate,
+    (forall t, validate n_column_width [t] = column_width [t]) ->
+    (forall t, validate n_column_count [t] = column_count [t]) ->
+    forall tokens,
+      tokens <> [] -> existsb has_var tokens = false -> is_default_kw (get_single_keyword tokens) = false ->
+      (forall vw vc, ~ columns_means tokens vw vc) ->
+      columns_expander known validate tokens = None.
+Proof. exact columns_reject. Qed.
+Print Assumptions C08_columns_reject.
+
+(* the hypotheses are inhabited by the pipeline the correspondence check runs, and the grammar by
+   `columns: auto 12em` (the `auto`-first order), `12em auto`, `auto`, `3 12em` *)
+Example C08_columns_modelled_validators pc :
+  (forall t, validate_modelled pc n_column_width [t] = column_width [t])
+  /\ (forall t, validate_modelled pc n_column_count [t] = column_count [t]).
+Proof. split; reflexivity. Qed.
+
 (* ---- var() ---- *)
 
 (* the function of the pinned tree (before fbf7bcf) does not terminate on a
@@ -277,4 +320,29 @@ Module Examples.
     - apply str_eqb_eq in E1. subst n. vm_compute in H. destruct H as [<-|[]]. vm_compute. auto.
     - destruct (str_eqb (s "--b") n) eqn:E2; vm_compute in H; contradiction.
   Qed.
+  (* columns: the `auto`-first order, the other order, one value, count first; and the whole
+     pipeline on `COLUMNS: auto 12em` *)
+  Example C08_columns_auto_first :
+    let em12 := TDim 12 true (s "em") in
+    columns_means [TIdent (s "auto"); em12] (VDim 12 4) (VKw kw_auto)
+    /\ columns_means [em12; TIdent (s "AUTO")] (VDim 12 4) (VKw kw_auto)
+    /\ columns_means [TIdent (s "auto")] (VKw kw_auto) (VKw kw_auto)
+    /\ columns_means [TNum 3 true; em12] (VDim 12 4) (VInt 3).
+  Proof.
+    assert (Hem : css_col_width (TDim 12 true (s "em")) (VDim 12 4)).
+    { apply CwLen; [unfold Qle; simpl; lia|reflexivity]. }
+    assert (Ha : forall v, ascii_lower v = kw_auto -> kw_is kw_auto (TIdent v)) by (intros v H; exists v; now split).
+    repeat split.
+    - apply CmCW; [exact Hem|apply CcAuto; now apply Ha].
+    - apply CmWC; [exact Hem|apply CcAuto; now apply Ha].
+    - apply CmW. apply CwAuto. now apply Ha.
+    - apply CmCW; [exact Hem|]. change 3%Z with (Qfloor 3). apply CcInt. unfold Qle; simpl; lia.
+  Qed.
+
+  Example ex_columns :
+    map (fun d => (od_name d, od_value d))
+        (pre [RDecl (s "COLUMNS") [TIdent (s "auto"); TWs; TDim 12 true (s "em")] false;
+              RDecl (s "columns") [TDim 12 true (s "em"); TDim 3 true (s "em")] false])
+    = [(s "column-width", VDim 12 4); (s "column-count", VKw (s "auto"))].
+  Proof. vm_compute. reflexivity. Qed.
 End Examples.
